@@ -45,9 +45,15 @@ def handle (j : Json) : Json :=
         match ← jArr t with
         | [a, b] => pure ((← jRat a), (← jRat b))
         | _ => none) (jFieldD j "bwd_plain" Json.null))
-    let bwd : Tr := match bwdPlain with
-      | some ab' => ⟨false, affineInv ab', worldU, pixU⟩
-      | none => ⟨usesQ, affineInv ab, tout, tin⟩
+    -- or the other way round: a user-supplied unit-carrying inverse (frame units -> pixel units) next to a unit-free forward transform
+    let bwdUnits : Option (List (Rat × Rat)) := (jList (fun t => do
+        match ← jArr t with
+        | [a, b] => pure ((← jRat a), (← jRat b))
+        | _ => none) (jFieldD j "bwd_units" Json.null))
+    let bwd : Tr := match bwdPlain, bwdUnits with
+      | some ab', _ => ⟨false, affineInv ab', worldU, pixU⟩
+      | none, some ab' => ⟨true, affineInv ab', worldU, pixU⟩
+      | none, none => ⟨usesQ, affineInv ab, tout, tin⟩
     let w : W := { fwd := ⟨usesQ, affine ab, tin, tout⟩, bwd := bwd, pixU := pixU, worldU := worldU }
     let vals := args.filterMap unArg
     let outVals (r : Except Err (List Rat)) : Json :=
@@ -60,6 +66,15 @@ def handle (j : Json) : Json :=
     | "invert" => outArgs (w.invert args)
     | "p2w" => outArgs (w.pixelToWorld args)
     | "call_units" => outArgs (w.callWithUnits args)
+    | "w2ai_scale" =>
+      -- world_to_array_index through a one-axis scale-only backward transform Multiply(1/a * pix/tout)
+      match axes, args with
+      | [(a, _, _, to, px, _)], [arg] =>
+        (match (if (jBool (jFieldD j "raw" (Json.bool false))).getD false then arrayIndexScaleOnlyRaw (1 / a) to px arg
+                else arrayIndexScaleOnly (1 / a) to px px arg) with
+         | .ok i => okJson (intToJson i)
+         | .error e => errJson e)
+      | _, _ => badRequest "C16 w2ai_scale"
     | _ => badRequest "C16"
 
 end Gwcs.Drv.C16
